@@ -37,7 +37,11 @@ def main():
     meta["demo_passes_without_change"] = rc3 == 0
     sh("git apply _seed/patch.diff", wt)
     for f in os.listdir(seed):
-        shutil.copy(os.path.join(seed, f), os.path.join(dst, f))
+        src = os.path.join(seed, f)
+        if os.path.isdir(src):
+            shutil.copytree(src, os.path.join(dst, f), dirs_exist_ok=True)
+        else:
+            shutil.copy(src, os.path.join(dst, f))
     # run the checks against /repo with the patch applied
     st = subprocess.run("git -C /repo status --porcelain", shell=True, capture_output=True, text=True).stdout.strip()
     if st:
